@@ -24,6 +24,22 @@ SUBKW = {"items", "extends", "type", "disallow", "allOf", "anyOf", "oneOf", "add
          "not", "contains", "propertyNames", "if", "then", "else"}
 
 
+# names of later specifications (and of popular dialects) that refine a keyword of these drafts: placed NEXT TO that keyword
+COMPANIONS = {"contains": ["minContains", "maxContains"], "items": ["prefixItems", "unevaluatedItems", "minContains"],
+              "additionalItems": ["unevaluatedItems", "prefixItems"], "properties": ["unevaluatedProperties", "dependentRequired"],
+              "additionalProperties": ["unevaluatedProperties"], "dependencies": ["dependentRequired", "dependentSchemas"],
+              "type": ["nullable", "Type"], "enum": ["enumNames", "const"], "format": ["formatMinimum", "formatMaximum"],
+              "$ref": ["$recursiveRef", "$dynamicRef", "$anchor"], "required": ["dependentRequired"],
+              "minimum": ["exclusiveMinimum"], "maximum": ["exclusiveMaximum"], "pattern": ["flags", "regexp"],
+              "uniqueItems": ["uniqueKeys"], "if": ["elif", "elseIf"]}
+
+
+def at_path(S, path):
+    for k in path:
+        S = S[k]
+    return S
+
+
 def foreign_names(d):
     kws = errrec.keywords(d)
     out = [n for n in ANNOT + ALLKW + ["id" if d >= 6 else "$id"] if n not in kws and n != "required"]
@@ -89,13 +105,20 @@ def record_one(task):
     S2 = S
     pos = schema_positions(S)
     for _ in range(rng.randrange(1, 4)):
-        val = rng.choice([None, True, False, 1, "a", [], ["a"], {}, {"type": "integer"}, {"a": ["b"]}, g.json_value(2), g.schema(1)])
+        val = rng.choice([None, True, False, 0, 1, 2, -1, "a", [], ["a"], {}, {"type": "integer"}, {"a": ["b"]}, g.json_value(2), g.schema(1)])
         where, name = rng.choice(pos), rng.choice(names)
+        comp = [c for k in at_path(S2, where) if k in COMPANIONS for c in COMPANIONS[k] if c in names or c not in ALLKW]
+        if comp and rng.random() < 0.4:
+            name = rng.choice(comp)
         S2 = insert_at(S2, where, name, val)
         if name == "if" and d < 7:      # an other-draft keyword together with the siblings it would consult
             never = {"disallow": "any"} if d == 3 else {"not": {}}
             S2 = insert_at(S2, where, "then", rng.choice([never, {}]))
             S2 = insert_at(S2, where, "else", rng.choice([never, {"type": "string"}]))
+    if rng.random() < 0.15:            # a (sub)schema decorated with more members than any keyword table has entries
+        where = rng.choice(pos)
+        for n in range(40):
+            S2 = insert_at(S2, where, "x-ext-%02d" % n, rng.choice([n, "v", None, {"type": "null"}]))
     if S2 == S and list(S2) == list(S):
         return []
     out = []
